@@ -8,6 +8,7 @@ import (
 	"os"
 	"os/exec"
 	"path/filepath"
+	"regexp"
 	"strings"
 	"sync"
 
@@ -63,6 +64,18 @@ func (r *replayer) build() error {
 			ov.Replace[virt] = src
 		}
 		ov.Replace[filepath.Join(repoDir, "zz_verif_replay_test.go")] = filepath.Join(verifDir, "harness", "replay_test.go.txt")
+		// the BSI model compiled natively under vm* names + its differential test against the real library
+		if mb, err := os.ReadFile(filepath.Join(verifDir, "engine", "models", "bsi.go.txt")); err == nil {
+			txt := string(mb)
+			txt = strings.Replace(txt, "package roaring", "//go:build verif\n\npackage comet", 1)
+			for _, id := range []string{"NewDefaultBSI", "NewBSI", "BSI", "Operation", "Min64BitSigned", "Max64BitSigned", "RANGE", "LT", "LE", "EQ", "GE", "GT", "MIN", "MAX", "modelError"} {
+				txt = regexp.MustCompile(`\b`+id+`\b`).ReplaceAllString(txt, "vm"+id)
+			}
+			gen := filepath.Join(tmp, "vmbsi.go")
+			os.WriteFile(gen, []byte(txt), 0644)
+			ov.Replace[filepath.Join(repoDir, "zz_verif_vmbsi.go")] = gen
+			ov.Replace[filepath.Join(repoDir, "zz_verif_modeldiff_test.go")] = filepath.Join(verifDir, "harness", "native", "modeldiff_test.go.txt")
+		}
 		// the repository's own tests are not needed for a replay: stub them out to keep the build short
 		stub := filepath.Join(tmp, "stub_test.go")
 		os.WriteFile(stub, []byte("package comet\n"), 0644)
@@ -119,4 +132,29 @@ func (r *replayer) run(files []string) ([]replayOutcome, error) {
 func writeReplay(path string, rf replayFile) error {
 	b, _ := json.MarshalIndent(rf, "", " ")
 	return os.WriteFile(path, b, 0644)
+}
+
+// runModelDiff runs the native model-vs-library differential and returns (comparisons, disagreements, first lines).
+func (r *replayer) runModelDiff(seed int) (int, int, []string, error) {
+	if err := r.build(); err != nil {
+		return 0, 0, nil, err
+	}
+	cmd := exec.Command(r.bin, "-test.run", "^TestVerifModelDiff$", "-test.v", "-test.timeout", "300s")
+	cmd.Dir = repoDir
+	cmd.Env = append(os.Environ(), fmt.Sprintf("VERIF_SEED=%d", seed))
+	out, _ := cmd.CombinedOutput()
+	n, bad := -1, -1
+	var lines []string
+	for _, line := range strings.Split(string(out), "\n") {
+		if strings.HasPrefix(line, "MODELDIFF-DISAGREE") {
+			lines = append(lines, line)
+		}
+		if strings.HasPrefix(line, "MODELDIFF comparisons=") {
+			fmt.Sscanf(line, "MODELDIFF comparisons=%d disagreements=%d", &n, &bad)
+		}
+	}
+	if n < 0 {
+		return 0, 0, nil, fmt.Errorf("model differential did not run:\n%.1500s", out)
+	}
+	return n, bad, lines, nil
 }
